@@ -155,8 +155,12 @@ class Maintainer(Asset):
 
     def _finish_work_order(self, request):
         request.target.end_work(request.tag)
-        self._utilization -= request.needed_capacity
         self._active_requests.remove(request)
+        # Recalculate from the active work orders instead of subtracting
+        # so that floating point rounding errors do not accumulate (a
+        # residue would keep an order that needs the full capacity
+        # waiting forever).
+        self._utilization = sum(r.needed_capacity for r in self._active_requests)
         self._record_work_order_datapoint('finish_work_order', request)
 
         self.try_working_requests()
